@@ -78,7 +78,7 @@ let split_arrow (toks : string list) : string list * string list =
 
 (* ---- streams ---- *)
 let bytes_list_of_tok (s : string) : coq_N list list =
-  if s = "-" then [] else List.map (fun x -> if x = "" then [] else bytes_of_hex x) (String.split_on_char ',' s)
+  if s = "-" then [] else List.map (fun x -> if x = "" || x = "_" then [] else bytes_of_hex x) (String.split_on_char ',' s)
 
 (* chunk spec: "-" whole | "r<k>" repeat | "a,b,c" *)
 let sizes_of_spec (spec : string) (n : int) : coq_N list =
